@@ -55,8 +55,15 @@ def make_wf(name, p, log):
     def invdt(d):
         return 1.0 / (d + p)
 
+    # singular at the placeholder distance 1 that the code writes into missing slots
+    def sing1(d):
+        return p / np.abs(d - 1.0)
+
+    def sing1sq(d):
+        return p / ((d - 1.0) * (d - 1.0))
+
     f = {"bins": bins, "inv": inv, "lin": lin, "const": const, "step0": step0, "allzero": allzero,
-         "invd": invd, "invd2": invd2, "invdt": invdt}[name]
+         "invd": invd, "invd2": invd2, "invdt": invdt, "sing1": sing1, "sing1sq": sing1sq}[name]
 
     def recorded(d):
         w = f(d)
